@@ -283,6 +283,16 @@ def process_extract(gen, sec, vu_path):
     dirs = sec['dirs']
     dnames = [d['name'] for d in dirs]
     text = item.text
+    macro_expanded = False
+    if any(d['name'] == 'expand-macros' for d in dirs):
+        # R3: expand the crate's own macro invocations inside this item before anything else
+        text2, log = expand_macros_in(text, src)
+        if text2 == text:
+            raise UnitError('lost anchor: %s:%d: @expand-macros but no own-macro invocation in %s' % (vu_path, sec['line'], ' :: '.join(steps)))
+        for l in log:
+            gen.rules.append({'rule': 'R3 own-macro', 'item': ' :: '.join(steps), 'file': relfile, 'line': item.first_line, 'after': l})
+        text = text2
+        macro_expanded = True
     is_fn = steps[-1].startswith('fn ')
     item_name = ' :: '.join(steps)
     short = re.sub(r'^(fn|enum|struct|const|type|trait) ', '', steps[-1])
@@ -402,14 +412,18 @@ def process_extract(gen, sec, vu_path):
             rx, opts = parse_regex_arg(d['arg'], where)
             count = 1
             rule = 'R5 idiom'
+            optional = False
             for o in opts.split():
                 if o.startswith('count='):
                     count = int(o[6:])
                 elif o.startswith('rule='):
                     rule = o[5:]
+                elif o == 'optional':
+                    optional = True
             rep = '\n'.join(l for _, l in d['text'])
             ms = [m for m in re.finditer(rx, text, re.S)]
-            if len(ms) != count:
+            ms = [m for m in ms if m.end() > m.start() and mask[m.start()] == text[m.start()]]   # not inside comments/strings
+            if len(ms) != count and not (optional and len(ms) == 0):
                 raise UnitError('lost anchor: %s:%d: /%s/ matches %d times (expected %d) in %s' % (vu_path, d['line'], rx, len(ms), count, item_name))
             for m in ms:
                 new = m.expand(rep)
@@ -467,10 +481,6 @@ def process_extract(gen, sec, vu_path):
                             'file': relfile, 'lines': [item.first_line, item.last_line]})
 
     # macro expansion on repo segments if requested
-    if 'expand-macros' in dnames:
-        for sg in segs:
-            if sg.kind == 'repo' and re.search(r'\b(arg|min_and_max_by|min_and_max)!\s*\(', sg.text):
-                raise UnitError('%s: @expand-macros must be done via === expand' % where)
 
     # wrap in impl header(s)
     pre, post = '', ''
@@ -522,7 +532,7 @@ def process_extract(gen, sec, vu_path):
     for a in attrs:
         em.emit_text(a, {'kind': 'gen'})
     # emit segments with per-line origin
-    emit_segments(gen, segs, item, short, serves, vu_path)
+    emit_segments(gen, segs, item, short, serves, vu_path, approx=macro_expanded)
     if post:
         em.emit_text(post.strip('\n'), {'kind': 'gen'})
     sha = hashlib.sha256(item.text.encode()).hexdigest()[:16]
@@ -534,7 +544,7 @@ def process_extract(gen, sec, vu_path):
     return short
 
 
-def emit_segments(gen, segs, item, short, serves, vu_path):
+def emit_segments(gen, segs, item, short, serves, vu_path, approx=False):
     """Concatenate segments; assign each output line the origin of its first
     non-blank character."""
     chars = []
@@ -564,7 +574,7 @@ def emit_segments(gen, segs, item, short, serves, vu_path):
         o = {'item': short, 'serves': serves}
         if sg.kind == 'repo':
             relfile, src_off = sg.ref
-            o.update(kind='repo', file='jmespath/src/' + relfile, line=item.line_of(src_off + (off - a)))
+            o.update(kind='repo', file='jmespath/src/' + relfile, line=(item.first_line if approx else item.line_of(src_off + (off - a))))
         elif sg.kind == 'spec':
             vu, first, d = sg.ref
             o.update(kind='spec', file=os.path.relpath(vu, VERIF), line=first + sg.text.count('\n', 0, off - a) - (1 if sg.text.startswith('\n') else 0),
@@ -610,6 +620,8 @@ def process_expand(gen, sec, vu_path):
     gen.rules.append({'rule': 'R3 own-macro', 'item': '%s!(%s)' % (name, R.norm_ws(inner)[:80]), 'file': relfile, 'line': line, 'nested': log})
     tyname0 = split_top(inner)[0]
     # splice contract for `new`
+    if not any(d['name'] == 'contract-new' for d in sec['dirs']) and any(d['name'] == 'proof-new' for d in sec['dirs']):
+        sec['dirs'].append({'name': 'contract-new', 'arg': '', 'line': sec['line'], 'text': []})
     for d in sec['dirs']:
         if d['name'] == 'contract-new':
             body = '\n'.join(l for _, l in d['text'])
@@ -624,12 +636,20 @@ def process_expand(gen, sec, vu_path):
             c2 = R.match_close(R.mask_source(text), o2)
             inner_body = text[o2 + 1:c2]
             if hint:
-                # R8 bind-tail on the generated constructor body
-                inner_body = ' let r__ = ' + inner_body.strip() + ';\n' + hint + '\n r__ '
+                # R8 bind on the generated constructor body: the signature value is named so that ghost hints
+                # (and a type invariant, if any) can refer to it before the struct is built
+                msig = re.search(r'signature:\s*(Signature::new\(.*\)),?\s*\}\s*$', inner_body.strip(), re.S)
+                if msig and 'sig__' in hint:
+                    ib = inner_body.strip()
+                    inner_body = ' let sig__ = ' + msig.group(1) + ';\n' + hint + '\n ' + ib[:msig.start()] + 'signature: sig__ } '
+                else:
+                    inner_body = ' let r__ = ' + inner_body.strip() + ';\n' + hint + '\n r__ '
                 gen.rules.append({'rule': 'R8 bind-tail', 'item': tyname0 + '::new', 'file': relfile, 'line': line})
             text = text[:mm.start()] + 'pub fn new() -> (r: %s)\n%s\n{' % (mm.group(1), body) + inner_body + text[c2:]
     tyname = split_top(inner)[0]
     for d in sec['dirs']:
+        if d['name'] == 'type-invariant':
+            text += '\nimpl %s { #[verifier::type_invariant] pub closed spec fn inv__(self) -> bool { %s } }\n' % (tyname, d['arg'])
         if d['name'] == 'spec-accessor':
             an, fld, fty = d['arg'].split()
             text += '\nimpl %s { pub closed spec fn %s(&self) -> %s { self.%s } }\n' % (tyname, an, fty, fld)
